@@ -75,7 +75,8 @@ def pmap(fn, items, chunk=20):
 def variant_of(doc, seed, quick):
     """Concretisation variants to replay: one (seeded) in the quick tier, all four in the thorough tier."""
     allv = [("block", False), ("flow", False), ("block", True), ("flow", True)]
-    if any(n["k"] == "set" for n in doc):
+    if any(n["k"] == "set" or any(n.get("kanch") or []) for n in doc):
+        # (the same holds for an Alias used as a mapping key: the flow-style dump "*A: 1" does not reload)
         # ruamel.yaml cannot re-serialise a flow-style !!set (independent of yamlpath): block style only
         allv = [("block", False), ("block", True)]
     if not quick:
